@@ -396,8 +396,8 @@ def plan(tier):
     jobs.append({"part": "longlived", "requests": 6000 if tier == "quick" else 70000})
     n = 8 if tier == "quick" else 32
     for _ in range(n):
-        jobs.append({"part": "ops", "examples": 400 if tier == "quick" else 5000})
-        jobs.append({"part": "reject", "examples": 150 if tier == "quick" else 1500})
+        jobs.append({"part": "ops", "examples": 400 if tier == "quick" else 20000})
+        jobs.append({"part": "reject", "examples": 150 if tier == "quick" else 8000})
     return jobs
 
 
